@@ -1,6 +1,7 @@
 import LP.Props.C14
 import LP.Props.C14Eval
 import LP.Props.C14PowMod
+import LP.Props.C14RootCount
 #print axioms LP.ounion_mem
 #print axioms LP.ounion_sorted
 #print axioms LP.ounion_flags
@@ -22,3 +23,4 @@ import LP.Props.C14PowMod
 #print axioms LP.FPoly.C14_eval_spec
 #print axioms LP.FPoly.C14_eval_zero_iff
 #print axioms LP.FPoly.fpPowMod_spec
+#print axioms LP.roots_count_gcd
